@@ -835,7 +835,7 @@ func (x *c38Exec) panicInfo(q c38Req) (value, site, stack string) {
 	case <-time.After(c38WatchdogSeconds * time.Second):
 		return "", "replay-timeout", ""
 	}
-	x.env.C.AbortAll()
+	x.abortAll()
 	if site == "" {
 		site = "none(empty 500 written by the handler)"
 	}
@@ -922,10 +922,43 @@ func c38IsHarnessGap(text string) bool {
 	return false
 }
 
+// guard runs fn (which takes memstore's cluster mutex) under the wall-clock
+// watchdog: a panic of the code under test inside a store call can leave that
+// mutex locked for ever (memstore unlocks without defer). A timeout abandons the case.
+func (x *c38Exec) guard(what string, fn func()) bool {
+	if x.aborted {
+		return false
+	}
+	done := make(chan struct{})
+	go func() { defer close(done); fn() }()
+	select {
+	case <-done:
+		return true
+	case <-time.After(c38WatchdogSeconds * time.Second):
+		x.aborted = true
+		x.agg.count("harness_gap", 1)
+		x.agg.seen("harness_gaps", "memstore cluster mutex never released ("+what+" blocked "+fmt.Sprint(c38WatchdogSeconds)+" s) - case abandoned")
+		if len(x.st.history) > 0 {
+			h := x.st.history[len(x.st.history)-1]
+			x.agg.seen("harness_gap_examples", c38Trunc(fmt.Sprintf("store wedged after: %s %s %s", h.Method, h.Target, h.Body), 600))
+		}
+		return false
+	}
+}
+
+func (x *c38Exec) abortAll() { x.guard("AbortAll", func() { x.env.C.AbortAll() }) }
+
 // digest: hash of the committed state of the case's ledgers. memstore only
 // changes committed state at a commit, so the (expensive) snapshot is recomputed
 // only when the cluster's commit counter moved.
-func (x *c38Exec) digest() string {
+func (x *c38Exec) digest() (d string) {
+	if !x.guard("Snapshot", func() { d = x.digestUnguarded() }) {
+		return "wedged"
+	}
+	return d
+}
+
+func (x *c38Exec) digestUnguarded() string {
 	commits := x.env.C.Stats()["commits"]
 	if x.digOK && commits == x.digCommits && x.digLedger == x.newLedg {
 		return x.digCache
@@ -1154,10 +1187,13 @@ func (x *c38Exec) exec(rt *c38Route, m c38Mut, validKey string) (status int) {
 		x.aborted = true // the env may be wedged: abandon the case
 		return 0
 	}
-	if resp.Status >= 500 {
-		x.env.C.AbortAll()
+	if resp.Status >= 500 && len(resp.Body) == 0 {
+		x.abortAll() // a panicked handler leaves its store transaction open
 	}
 	after := x.digest()
+	if x.aborted {
+		return 0
+	}
 	if after != before {
 		x.writes++
 	}
@@ -1259,7 +1295,7 @@ func (x *c38Exec) maybeReseed() {
 		return
 	}
 	x.reseeds++
-	x.env.Close()
+	go x.env.Close()
 	x.env = sim.NewEnv(sim.Options{})
 	x.bare, x.digOK, x.lastDig, x.newLedg, x.writes = nil, false, "", "", 0
 	keep := x.st
@@ -1309,8 +1345,8 @@ func (x *c38Exec) minimize(rt *c38Route, class string, q c38Req, sig string) (c3
 		if resp.Unbuildable != "" || resp.TimedOut {
 			return false
 		}
-		if resp.Status >= 500 {
-			x.env.C.AbortAll()
+		if resp.Status >= 500 && len(resp.Body) == 0 {
+			x.abortAll()
 		}
 		x.agg.count("minimization_requests", 1)
 		return x.judge(rt, class, c, resp, before, x.digest()).Sig == sig
@@ -1367,7 +1403,7 @@ func c38RunCase(seed int64, loop string, idx int, routes []*c38Route, sys []c38S
 	env := sim.NewEnv(sim.Options{})
 	x := &c38Exec{seed: seed, loop: loop, idx: idx, env: env, agg: agg, inflight: inflight, onlyReq: onlyReq, startSeq: startSeq, out: out, reported: map[string]bool{},
 		st: &c38State{rng: rng, cursors: map[string]string{}}}
-	defer func() { x.env.Close() }()
+	defer func() { go x.env.Close() }() // Close waits for leaked store transactions: never wait for it
 	defer x.flush()
 	if !x.seed_(c38Rng(seed, loop+"/seed", idx)) {
 		return agg
@@ -1421,7 +1457,9 @@ func (x *c38Exec) seed_(srng *rand.Rand) bool {
 			return resp
 		}
 		if resp.Status >= 500 {
-			x.env.C.AbortAll()
+			if len(resp.Body) == 0 {
+				x.abortAll()
+			}
 			val, site, _ := "", "", ""
 			if len(resp.Body) == 0 {
 				val, site, _ = x.panicInfo(q)
